@@ -359,6 +359,8 @@ def gen_gp_twin(rng, nearly_exhausted=False):
         so["opt_skip_num_max_resource"] = True
     cuts = sorted(set([rng.randint(0, len(ops)) for _ in range(2)] + [rng.randint(len(ops) // 3, len(ops) - 2)]))
     return dict(kind="gp_twin", sched=kind, spec=spec, pts=h.gen_points(rng, spec, space), seed=rng.randrange(10 ** 6),
+                # constructor options which must survive the clone: an explicit local optimiser class
+                local_minimizer=rng.choice([None, None, "NoOptimization", "corner"]),
                 num_init_random=rng.choice([1, 2, 3]), search_options=so, ops=ops, cuts=cuts, max_suggest=n,
                 metrics=[round(rng.uniform(0, 1), 3) for _ in range(4 * n)], pickle_state=rng.random() < 0.4,
                 order=rng.choice(["sequential", "interleaved"]))
@@ -757,6 +759,13 @@ def run(ctx, replay=None):
         for kind in ("fifo-bayesopt", "hb-stopping-bayesopt"):
             cases += [gen_gp_twin_many_pending(rng, kind) for _ in range(ctx.n(3, 12))]
         cases += [gen_gp_twin_restrict(rng) for _ in range(ctx.n(6, 30))]
+        for lm in ("NoOptimization", "corner"):        # directed: explicit local_minimizer_class, model-based steps after the snapshot
+            for kind in ("fifo-bayesopt", "hb-stopping-bayesopt"):
+                c = gen_gp_twin_many_pending(rng, kind)
+                c.update(local_minimizer=lm, directed_history="explicit_local_minimizer_class_" + lm,
+                         ops=["suggest", "complete"] * 4 + ["suggest", "suggest", "complete", "suggest", "complete", "suggest"],
+                         cuts=[8], max_suggest=9)
+                cases.append(c)
         for kind in ("fifo-bayesopt", "hb-stopping-bayesopt"):
             cases += [gen_dill_multiworker(rng, kind) for _ in range(ctx.n(3, 15))]
         for kind in ("hb-stopping-random", "hb-promotion-random", "hb-pasha-random"):
